@@ -338,17 +338,24 @@ XIncludeUtils::doDOMNodeXInclude(DOMNode *xincludeNode, DOMDocument *parsedDocum
                 }
                 includeParent->replaceChild(frag, xincludeNode);
                 frag->release();
-
-                for(XMLSize_t i=0;i<delayedProcessing.size();i++)
-                {
-                    DOMNode* childNode=delayedProcessing.elementAt(i);
-                    parseDOMNodeDoingXInclude(childNode, parsedDocument, entityResolver);
-                }
                 modifiedNode = true;
             } else {
                 /* empty fallback element - simply remove it! */
                 includeParent->removeChild(xincludeNode);
                 modifiedNode = true;
+            }
+
+            // 4.5 an include element that is the document element must not
+            // be replaced by anything but one element, comments and PIs
+            if (includeParent == parsedDocument && parsedDocument->getDocumentElement() == NULL){
+                XIncludeUtils::reportError(parsedDocument, XMLErrs::InvalidDocumentStructure,
+                    NULL, parsedDocument->getDocumentURI());
+            }
+
+            for(XMLSize_t i=0;i<delayedProcessing.size();i++)
+            {
+                DOMNode* childNode=delayedProcessing.elementAt(i);
+                parseDOMNodeDoingXInclude(childNode, parsedDocument, entityResolver);
             }
         } else {
             XIncludeUtils::reportError(xincludeNode, XMLErrs::XIncludeIncludeFailedNoFallback,
